@@ -29,15 +29,105 @@ def Conformant (r : ReqIn) : Eff → Prop
     (subj = b!"conn." ++ r.cid ++ b!".token")
   | _ => True
 
-/-- **everything published while processing a request is conformant**, for every handler script -/
-theorem all_conformant (cfg : HCfg) (r : ReqIn) (script : List Action) :
-    ∀ e ∈ process cfg r script, Conformant r e := by
-  sorry
+theorem respShape_isResponse {allow : Bool} {m0 : Option Str} {p : Str} (h : RespShape m0 p)
+    (hm : m0.isSome → allow = true) : IsResponse allow p := by
+  cases h with
+  | result v m hm' => exact .result v m (by rcases hm' with rfl | rfl <;> simp_all)
+  | resource rid m hm' hv => exact .resource rid m (by rcases hm' with rfl | rfl <;> simp_all) hv
+  | error c msg m hm' => exact .error c msg m (by rcases hm' with rfl | rfl <;> simp_all)
+
+theorem aux_conformant {r : ReqIn} {e : Eff} (h : Aux r e) : Conformant r e := by
+  cases h with
+  | apply k => trivial
+  | listener i n => trivial
+  | ev name payload hn => exact Or.inr (Or.inl ⟨name, rfl, hn⟩)
+  | tok payload => exact Or.inr (Or.inr rfl)
+  | pre ms hms => exact Or.inl ⟨rfl, Or.inl ⟨ms, hms, rfl⟩⟩
+
+/-- the invariant of a running handler: everything published so far is conformant, and meta is
+only ever set on an HTTP request -/
+def ConfInv (r : ReqIn) (s : St) : Prop :=
+  (∀ e ∈ s.effs, Conformant r e) ∧ ((metaOf s).isSome → r.isHTTP = true)
+
+theorem next_confInv {r : ReqIn} {s s' : St} (hok : r.isHTTP = true → r.payload = .ok)
+    (h : Next r s s') (hi : ConfInv r s) : ConfInv r s' := by
+  obtain ⟨h1, h2⟩ := hi
+  cases h with
+  | same => exact ⟨h1, h2⟩
+  | reply p hr hp =>
+    refine ⟨?_, h2⟩
+    intro e he
+    rcases List.mem_append.1 he with he | he
+    · exact h1 e he
+    · rw [List.mem_singleton.1 he]
+      exact Or.inl ⟨rfl, Or.inr (respShape_isResponse hp (fun hm => by simp [h2 hm, hok (h2 hm)]))⟩
+  | aux es hes =>
+    refine ⟨?_, h2⟩
+    intro e he
+    rcases List.mem_append.1 he with he | he
+    · exact h1 e he
+    · exact aux_conformant (hes e he)
+  | setMeta mt hh hr => exact ⟨h1, fun _ => hh⟩
+
+/-- **everything published while processing a request is conformant** for the request as the
+handler sees it (`normReq`: a request with an empty payload has all its fields at their zero
+value, in particular an empty connection ID) -/
+theorem all_conformant_norm (cfg : HCfg) (r : ReqIn) (script : List Action) :
+    ∀ e ∈ process cfg r script, Conformant (normReq r) e := by
+  rcases process_cases cfg r script with ⟨_, he⟩ | ⟨_, p, hp, he⟩ | ⟨_, kind, _, hb, _, he⟩
+  · simp [he]
+  · rw [he]; intro e hm
+    rw [List.mem_singleton.1 hm]
+    exact Or.inl ⟨rfl, Or.inr (respShape_isResponse hp (by simp))⟩
+  · have hok : (normReq r).isHTTP = true → (normReq r).payload = .ok := by
+      intro hh
+      obtain ⟨_, hne⟩ := normReq_isHTTP r hh
+      rw [normReq_of_ne_empty r hne]
+      cases hp : r.payload <;> simp_all
+    have hi : ConfInv (normReq r) (stepSt (runScript cfg (normReq r) (seen0 kind (normReq r)) script)) :=
+      runScript_next cfg (normReq r) (ConfInv (normReq r)) (fun _ _ hn h => next_confInv hok hn h) script _
+        ⟨by simp [seen0, Conformant], by simp⟩
+    rw [he]
+    rcases finish_cases (runScript cfg (normReq r) (seen0 kind (normReq r)) script) with ⟨_, h2⟩ | ⟨_, p, hp, h2⟩
+    · rw [h2]; exact hi.1
+    · rw [h2]; intro e hm
+      rcases List.mem_append.1 hm with hm | hm
+      · exact hi.1 e hm
+      · rw [List.mem_singleton.1 hm]
+        exact Or.inl ⟨rfl, Or.inr (respShape_isResponse hp (fun hm => by simp [hi.2 hm, hok (hi.2 hm)]))⟩
+
+theorem conformant_of_norm {r : ReqIn} {e : Eff} (hc : r.payload = .empty → r.cid = [])
+    (h : Conformant (normReq r) e) : Conformant r e := by
+  by_cases hp : r.payload = .empty
+  · cases e with
+    | pub subj payload =>
+      have e1 : ((normReq r).isHTTP && (normReq r).payload == .ok) = (r.isHTTP && r.payload == .ok) := by
+        simp [normReq, hp]
+      have e2 : (normReq r).cid = r.cid := by simp [normReq, hp, hc hp]
+      simpa only [Conformant, evSubj, e1, e2, normReq_rname] using h
+    | apply k => trivial
+    | listener i n => trivial
+    | seen d => trivial
+  · rwa [normReq_of_ne_empty r hp] at h
+
+/-- **everything published while processing a request is conformant**, for every handler script.
+
+STATEMENT REPAIRED: the hypothesis `hc` was added.  `ReqIn` lets `cid` and `payload` vary
+independently, but a request with an empty payload has no connection ID (`process` zeroes the
+field), so a token event is then published on `conn..token`; without `hc` the statement fails for
+`payload := .empty, cid := [99]`, script `[.tokenEvent none]` (see `counterexample` below).
+`all_conformant_norm` is the unconditional form. -/
+theorem all_conformant (cfg : HCfg) (r : ReqIn) (script : List Action)
+    (hc : r.payload = .empty → r.cid = []) :
+    ∀ e ∈ process cfg r script, Conformant r e :=
+  fun e he => conformant_of_norm hc (all_conformant_norm cfg r script e he)
 
 /-- meta appears only on responses to requests flagged as HTTP -/
 theorem meta_only_http (r : ReqIn) (s : St) (cfg : HCfg) (script : List Action) (h : r.isHTTP = false)
     (hs : s.mt.render = none) : (stepSt (runScript cfg r s script)).mt.render = none := by
-  sorry
+  refine runScript_next cfg r (fun s' => s'.mt.render = none) ?_ script s hs
+  intro s1 s2 hn h1
+  rw [hn.meta_http h]; exact h1
 
 /-- a handler-supplied value that cannot be marshalled produces a `system.internalError`
 response, never a malformed or missing message -/
@@ -45,11 +135,11 @@ theorem unmarshalable_is_internal_error (cfg : HCfg) (r : ReqIn) (s : St) (hr : 
     (stepSt (act cfg r s (.ok (some ⟨false, t⟩)))).effs = s.effs ++ [.pub replySubj (respError codeInternal goErr none)] ∧
     (stepSt (act cfg r s (.model ⟨false, t⟩ q))).effs = s.effs ++ [.pub replySubj (respError codeInternal goErr none)] ∧
     (stepSt (act cfg r s (.collection ⟨false, t⟩ q))).effs = s.effs ++ [.pub replySubj (respError codeInternal goErr none)] := by
-  sorry
+  refine ⟨?_, ?_, ?_⟩ <;> simp [act, success, reply, hr, emit]
 
 /-- an unmarshalable event value publishes nothing (never a malformed event) -/
 theorem unmarshalable_event_silent (s : St) (subj t : Str) : svcEvent s subj (some ⟨false, t⟩) = s := by
-  sorry
+  simp [svcEvent]
 
 /-- every event type carries its documented fields: change → `values` object, add → `idx` and
 `value`, remove → `idx`, create/delete/reaccess → empty payload -/
@@ -57,19 +147,34 @@ theorem add_payload (cfg : HCfg) (r : ReqIn) (s : St) (v : Str) (idx : Int) (h1 
     (h3 : cfg.applyAdd = .absent) :
     (stepSt (act cfg r s (.add ⟨true, v⟩ idx))).effs =
       s.effs ++ [.pub (evSubj r (b!"add")) (obj [(b!"idx", intText idx), (b!"value", v)])] ++ listenersOf cfg (b!"add") := by
-  sorry
+  have h2' : ¬ idx < 0 := by omega
+  simp [act, h1, h2', h3, svcEvent, emit, addAll]
 
 theorem remove_payload (cfg : HCfg) (r : ReqIn) (s : St) (idx : Int) (h1 : cfg.typ ≠ 1) (h2 : 0 ≤ idx)
     (h3 : cfg.applyRemove = .absent) :
     (stepSt (act cfg r s (.remove idx))).effs =
       s.effs ++ [.pub (evSubj r (b!"remove")) (obj [(b!"idx", intText idx)])] ++ listenersOf cfg (b!"remove") := by
-  sorry
+  have h2' : ¬ idx < 0 := by omega
+  simp [act, h1, h2', h3, svcEvent, emit, addAll]
 
 theorem create_delete_payload (cfg : HCfg) (r : ReqIn) (s : St) (v : JV)
     (h3 : cfg.applyCreate = .absent) (h4 : cfg.applyDelete = .absent) :
     (stepSt (act cfg r s (.create v))).effs = s.effs ++ [.pub (evSubj r (b!"create")) []] ++ listenersOf cfg (b!"create") ∧
     (stepSt (act cfg r s .delete)).effs = s.effs ++ [.pub (evSubj r (b!"delete")) []] ++ listenersOf cfg (b!"delete") := by
-  sorry
+  constructor <;> simp [act, h3, h4, svcEvent, emit, addAll]
+
+/-! ## the side condition of `all_conformant` is needed -/
+def cfgCE : HCfg := ⟨true, false, false, [], [], 0, .absent, .absent, .absent, .absent, .absent, 0⟩
+def reqCE : ReqIn := ⟨.access, [97], [], true, [], .empty, [99], false, none, none, []⟩
+
+/-- without `hc`, `all_conformant` fails: an access request with an empty payload but `cid = "c"`
+whose handler emits a token event, which goes to `conn..token` -/
+theorem counterexample : ¬ ∀ e ∈ process cfgCE reqCE [.tokenEvent none], Conformant reqCE e := by
+  intro h
+  have hm : Eff.pub (b!"conn..token") (obj [(b!"token", b!"null")]) ∈ process cfgCE reqCE [.tokenEvent none] := by
+    simp [process, cfgCE, reqCE, pick, runScript, act, svcEvent, emit]
+  have := h _ hm
+  simp [Conformant, reqCE, replySubj, evSubj] at this
 
 /-! ## non-vacuity -/
 example : IsResponse false (withMeta [(b!"result", b!"null")] none) := .result _ none (by simp)
